@@ -119,7 +119,7 @@ def run(desc, ctx):
 def strat(tier):
     from hypothesis import strategies as st
 
-    return st.one_of(cnf.small_cnf(), cnf.threshold_cnf(32 if tier == "quick" else 40), cnf.threshold_cnf(24), cnf.structured_cnf(), cnf.gadget_cnf(), cnf.gadget_cnf())
+    return st.one_of(cnf.small_cnf(), cnf.threshold_cnf(32 if tier == "quick" else 40), cnf.threshold_cnf(24), cnf.structured_cnf(), cnf.gadget_cnf(), cnf.duplicate_cnf())
 
 
 SUBS = [
